@@ -324,25 +324,79 @@ Ltac step_tf E :=
     end
   end.
 
-Ltac run_get_state E1 E2 E3 E4 :=
-  unfold get_state, get_state_src; cbv zeta; rewrite ?render_safe_total; cbn [sbind];
-  repeat (first [step_tf E1 | step_tf E2 | step_tf E3 | rewrite E4]; cbn [sbind]).
+(* HT : e_type e = Ok ty, HP : e_parents e = Ok ps -- reflect.qual returned for the class and for every ancestor *)
+Ltac run_get_state HT HP E1 E2 E3 E4 :=
+  unfold get_state, get_state_src; cbv zeta; rewrite ?render_safe_total, ?HT, ?HP; cbn [sbind];
+  repeat (first [step_tf E1 | step_tf E2 | step_tf E3 | rewrite E4 | rewrite HP | rewrite HT]; cbn [sbind]).
 
-(* C10_failure_fits: no hypothesis on the exception at all *)
-Theorem failure_fits unsafe e :
+Lemma nameable_inv e : nameable e = true -> exists ty pa, e_type e = Ok ty /\ e_parents e = Ok pa.
+Proof. unfold nameable. destruct (e_type e) as [ty|]; [|discriminate]. destruct (e_parents e) as [pa|]; [|discriminate]. eauto. Qed.
+
+Lemma nameable_intro e ty pa : e_type e = Ok ty -> e_parents e = Ok pa -> nameable e = true.
+Proof. unfold nameable. intros -> ->. reflexivity. Qed.
+
+(* whatever the order of its statements: getStateToCopy returns only if it could name the class and every ancestor *)
+Lemma get_state_ok_nameable unsafe e s : get_state unsafe e = Ok s -> nameable e = true.
+Proof.
+  unfold nameable. destruct (e_type e) as [ty|t] eqn:HT; [destruct (e_parents e) as [pa|t] eqn:HP; [reflexivity|]|];
+    unfold get_state, get_state_src; cbv zeta; rewrite ?render_safe_total, ?HT, ?HP; cbn [sbind]; intros G; exfalso;
+    repeat match type of G with
+           | sbind (e_parents e) _ = Ok _ => rewrite HP in G; cbn [sbind] in G
+           | sbind (e_type e) _ = Ok _ => rewrite HT in G; cbn [sbind] in G
+           | sbind ?r _ = Ok _ => destruct r; cbn [sbind] in G
+           end; discriminate G.
+Qed.
+
+(* the region C10_failure_fits excludes: a class that cannot be named (its own __module__, or an ancestor's, is not a string).
+   getStateToCopy RAISES -- inside Banana.produce, where anything but a Violation means sendFailed: the connection is dropped
+   (lib/Callee.v send_error; finding oracle/sibling-affected/exception-class-without-module) *)
+Theorem failure_unnameable_raises unsafe e : nameable e = false -> exists t, get_state unsafe e = Exc t.
+Proof.
+  intros N. destruct (get_state unsafe e) as [s|t] eqn:G; [|eauto].
+  rewrite (get_state_ok_nameable _ _ _ G) in N. discriminate N.
+Qed.
+
+(* getStateToCopy returns exactly for the nameable classes *)
+Theorem get_state_returns_iff unsafe e : (exists s, get_state unsafe e = Ok s) <-> nameable e = true.
+Proof.
+  split; [intros (s & G); exact (get_state_ok_nameable _ _ _ G)|].
+  intros N. destruct (get_state unsafe e) as [s|t] eqn:G; [eauto|].
+  exfalso. revert G. unfold get_state.
+  destruct (nameable_inv e N) as (ty & pa & HT & HP).
+  destruct (trunc_field_spec (rendered e) trunc_limit_value ltac:(vm_compute; reflexivity)) as (bv & E1 & _).
+  destruct (trunc_field_spec ty trunc_limit_type ltac:(vm_compute; reflexivity)) as (bt & E2 & _).
+  destruct (trunc_field_spec (elide (if unsafe then e_stack e else default_traceback)) trunc_limit_traceback ltac:(vm_compute; reflexivity))
+    as (btb & E3 & _). unfold elide in E3.
+  destruct (map_res_spec pa trunc_limit_parents ltac:(vm_compute; reflexivity)) as (ps & E4 & _).
+  run_get_state HT HP E1 E2 E3 E4. discriminate.
+Qed.
+
+(* the witness: type("NoMod", (Exception,), {"__module__": None}) -- qual(obj.type) raises TypeError; and a class WITH a module whose
+   base class has none: obj.parents raises *)
+Example ex_unnameable :
+  get_state false {| e_type := Exc "TypeError"%string; e_str := Ok [109]; e_fallback := []; e_stack := []; e_parents := Exc "TypeError"%string |}
+    = Exc "TypeError"%string /\
+  get_state true {| e_type := Ok [109; 46; 69]; e_str := Ok [109]; e_fallback := []; e_stack := []; e_parents := Exc "TypeError"%string |}
+    = Exc "TypeError"%string.
+Proof. split; vm_compute; reflexivity. Qed.
+
+(* C10_failure_fits: the ONE hypothesis on the exception is that its class can be named -- reflect.qual returns for the class (ty)
+   and for every class of its MRO (pa); nothing on the message, the rendering, the traceback.  Outside it: failure_unnameable_raises *)
+Theorem failure_fits unsafe e ty pa : e_type e = Ok ty -> e_parents e = Ok pa ->
   exists s, get_state unsafe e = Ok s /\ failure_constraint_ok s = true /\
     field_of (escape (rendered e)) trunc_limit_value (s_value s) /\
-    field_of (escape (e_type e)) trunc_limit_type (s_type s) /\
+    field_of (escape ty) trunc_limit_type (s_type s) /\
     field_of (escape (elide (if unsafe then e_stack e else default_traceback))) trunc_limit_traceback (s_traceback s) /\
-    Forall2 (fun p b => field_of (escape p) trunc_limit_parents b) (e_parents e) (s_parents s).
+    Forall2 (fun p b => field_of (escape p) trunc_limit_parents b) pa (s_parents s).
 Proof.
+  intros HT HP.
   destruct (trunc_field_spec (rendered e) trunc_limit_value ltac:(vm_compute; reflexivity)) as (bv & E1 & L1 & F1).
-  destruct (trunc_field_spec (e_type e) trunc_limit_type ltac:(vm_compute; reflexivity)) as (bt & E2 & L2 & F2).
+  destruct (trunc_field_spec ty trunc_limit_type ltac:(vm_compute; reflexivity)) as (bt & E2 & L2 & F2).
   destruct (trunc_field_spec (elide (if unsafe then e_stack e else default_traceback)) trunc_limit_traceback ltac:(vm_compute; reflexivity))
     as (btb & E3 & L3 & F3). unfold elide in E3.
-  destruct (map_res_spec (e_parents e) trunc_limit_parents ltac:(vm_compute; reflexivity)) as (ps & E4 & F4).
+  destruct (map_res_spec pa trunc_limit_parents ltac:(vm_compute; reflexivity)) as (ps & E4 & F4).
   exists {| s_type := bt; s_value := bv; s_traceback := btb; s_parents := ps |}.
-  split; [run_get_state E1 E2 E3 E4; reflexivity|]. cbn [s_type s_value s_traceback s_parents].
+  split; [run_get_state HT HP E1 E2 E3 E4; reflexivity|]. cbn [s_type s_value s_traceback s_parents].
   split; [|split; [exact F1|split; [exact F2|split; [exact F3|]]]].
   - unfold failure_constraint_ok. cbn [s_type s_value s_traceback s_parents].
     rewrite (bytestring_ok_of_le fc_limit_type bt) by (unfold fc_limit_type; unfold trunc_limit_type in L2; lia).
@@ -359,21 +413,22 @@ Proof.
   rewrite Z.gtb_ltb. destruct (lim <? blen b) eqn:E; [apply Z.ltb_lt in E; lia|]. destruct (vocab b); reflexivity.
 Qed.
 
-Theorem failure_fits_any_encoding unsafe e vocab :
+Theorem failure_fits_any_encoding unsafe e vocab : nameable e = true ->
   exists s, get_state unsafe e = Ok s /\ failure_constraint_ok_enc vocab s = true.
 Proof.
+  intros N. destruct (nameable_inv e N) as (ty & pa & HT & HP).
   destruct (trunc_field_spec (rendered e) trunc_limit_value ltac:(vm_compute; reflexivity)) as (bv & E1 & L1 & _).
-  destruct (trunc_field_spec (e_type e) trunc_limit_type ltac:(vm_compute; reflexivity)) as (bt & E2 & L2 & _).
+  destruct (trunc_field_spec ty trunc_limit_type ltac:(vm_compute; reflexivity)) as (bt & E2 & L2 & _).
   destruct (trunc_field_spec (elide (if unsafe then e_stack e else default_traceback)) trunc_limit_traceback ltac:(vm_compute; reflexivity))
     as (btb & E3 & L3 & _). unfold elide in E3.
-  destruct (map_res_spec (e_parents e) trunc_limit_parents ltac:(vm_compute; reflexivity)) as (ps & E4 & F4).
+  destruct (map_res_spec pa trunc_limit_parents ltac:(vm_compute; reflexivity)) as (ps & E4 & F4).
   exists {| s_type := bt; s_value := bv; s_traceback := btb; s_parents := ps |}.
-  split; [run_get_state E1 E2 E3 E4; reflexivity|]. unfold failure_constraint_ok_enc. cbn [s_type s_value s_traceback s_parents].
+  split; [run_get_state HT HP E1 E2 E3 E4; reflexivity|]. unfold failure_constraint_ok_enc. cbn [s_type s_value s_traceback s_parents].
   rewrite (bytestring_ok_enc_of_le vocab fc_limit_type bt) by (unfold fc_limit_type; unfold trunc_limit_type in L2; lia).
   rewrite (bytestring_ok_enc_of_le vocab fc_limit_value bv) by (unfold fc_limit_value; unfold trunc_limit_value in L1; lia).
   rewrite (bytestring_ok_enc_of_le vocab fc_limit_traceback btb) by (unfold fc_limit_traceback; unfold trunc_limit_traceback in L3; lia).
   cbn [andb]. replace (forallb (bytestring_ok_enc vocab fc_limit_parents) ps) with true; [reflexivity|].
-  symmetry. clear E4. revert F4. generalize (e_parents e). induction ps as [|b ps IH]; intros l F; [reflexivity|].
+  symmetry. clear E4 HP. revert F4. generalize pa. induction ps as [|b ps IH]; intros l F; [reflexivity|].
   inversion F as [|p b' l' ps' [Lb _] F']; subst. cbn [forallb]. rewrite (IH _ F').
   rewrite bytestring_ok_enc_of_le; [reflexivity|]. unfold fc_limit_parents; unfold trunc_limit_parents in Lb; lia.
 Qed.
@@ -400,7 +455,7 @@ Proof. split; reflexivity. Qed.
 
 (* ---- non-vacuity *)
 Example ex_surrogate_and_badstr :
-  get_state false {| e_type := [86]; e_str := Exc "RuntimeError"%string; e_fallback := [60; 56580; 62]; e_stack := []; e_parents := [[86; 55296]] |}
+  get_state false {| e_type := Ok [86]; e_str := Exc "RuntimeError"%string; e_fallback := [60; 56580; 62]; e_stack := []; e_parents := Ok [[86; 55296]] |}
   = Ok {| s_type := [86]; s_value := [60; 92; 117; 100; 100; 48; 52; 62]; s_traceback := utf8 default_traceback;
           s_parents := [[86; 92; 117; 100; 56; 48; 48]] |}.
 Proof. vm_compute. reflexivity. Qed.
@@ -444,10 +499,12 @@ Proof. induction 1; cbn; congruence. Qed.
 
 (* "identifies the remote exception's type (by class name ...)": a class name that UTF-8 can encode and that fits the
    limit arrives byte for byte *)
-Theorem type_exact unsafe e s : get_state unsafe e = Ok s -> wf_text (e_type e) ->
-  blen (utf8 (e_type e)) <= trunc_limit_type -> s_type s = utf8 (e_type e).
+Theorem type_exact unsafe e s ty : get_state unsafe e = Ok s -> e_type e = Ok ty -> wf_text ty ->
+  blen (utf8 ty) <= trunc_limit_type -> s_type s = utf8 ty.
 Proof.
-  intros G W L. destruct (failure_fits unsafe e) as (s' & G' & _ & _ & FT & _). rewrite G in G'. inversion G'; subst s'.
+  intros G HT W L. destruct (nameable_inv e (get_state_ok_nameable _ _ _ G)) as (ty' & pa & HT' & HP).
+  rewrite HT in HT'. inversion HT'; subst ty'.
+  destruct (failure_fits unsafe e ty pa HT HP) as (s' & G' & _ & _ & FT & _). rewrite G in G'. inversion G'; subst s'.
   rewrite (escape_id _ W) in FT. exact (field_of_fits _ _ _ FT L).
 Qed.
 
@@ -455,21 +512,24 @@ Qed.
 Theorem value_exact unsafe e s : get_state unsafe e = Ok s -> wf_text (rendered e) ->
   blen (utf8 (rendered e)) <= trunc_limit_value -> s_value s = utf8 (rendered e).
 Proof.
-  intros G W L. destruct (failure_fits unsafe e) as (s' & G' & _ & FV & _). rewrite G in G'. inversion G'; subst s'.
+  intros G W L. destruct (nameable_inv e (get_state_ok_nameable _ _ _ G)) as (ty & pa & HT & HP).
+  destruct (failure_fits unsafe e ty pa HT HP) as (s' & G' & _ & FV & _). rewrite G in G'. inversion G'; subst s'.
   rewrite (escape_id _ W) in FV. exact (field_of_fits _ _ _ FV L).
 Qed.
 
 (* "(... and ancestry)": the transmitted ancestry has the length and the order of the original one (Forall2 is positional);
    every ancestor whose name fits is found by check(), whatever happened to the other entries; and nothing is invented:
    every transmitted entry is the field of the ancestor at its position *)
-Theorem ancestry_preserved unsafe e s : get_state unsafe e = Ok s ->
-  List.length (s_parents s) = List.length (e_parents e) /\
-  (forall n, In n (e_parents e) -> wf_text n -> blen (utf8 n) <= trunc_limit_parents ->
+Theorem ancestry_preserved unsafe e s pa : get_state unsafe e = Ok s -> e_parents e = Ok pa ->
+  List.length (s_parents s) = List.length pa /\
+  (forall n, In n pa -> wf_text n -> blen (utf8 n) <= trunc_limit_parents ->
              delivered_check (Copied s) (utf8 n) = true) /\
   (forall b, delivered_check (Copied s) b = true ->
-             exists p, In p (e_parents e) /\ field_of (escape p) trunc_limit_parents b).
+             exists p, In p pa /\ field_of (escape p) trunc_limit_parents b).
 Proof.
-  intros G. destruct (failure_fits unsafe e) as (s' & G' & _ & _ & _ & _ & FP). rewrite G in G'. inversion G'; subst s'.
+  intros G HP. destruct (nameable_inv e (get_state_ok_nameable _ _ _ G)) as (ty & pa' & HT & HP').
+  rewrite HP in HP'. inversion HP'; subst pa'.
+  destruct (failure_fits unsafe e ty pa HT HP) as (s' & G' & _ & _ & _ & _ & FP). rewrite G in G'. inversion G'; subst s'.
   split; [symmetry; exact (forall2_length _ _ _ FP)|]. split.
   - intros n I W L. unfold delivered_check, check_names. apply existsb_list_eqb.
     destruct (forall2_in_l _ _ _ _ FP I) as (b & Ib & Fb). rewrite (escape_id _ W) in Fb.
@@ -488,28 +548,30 @@ Proof.
     inversion H; subst. destruct k; [reflexivity|]. cbn [firstn map_res]. rewrite E, (IH ys k eq_refl). reflexivity.
 Qed.
 
-Theorem ancestry_prefix_closed unsafe e s k : get_state unsafe e = Ok s ->
+Theorem ancestry_prefix_closed unsafe e s k pa : get_state unsafe e = Ok s -> e_parents e = Ok pa ->
   exists s', get_state unsafe {| e_type := e_type e; e_str := e_str e; e_fallback := e_fallback e; e_stack := e_stack e;
-                                 e_parents := firstn k (e_parents e) |} = Ok s' /\
+                                 e_parents := Ok (firstn k pa) |} = Ok s' /\
              s_parents s' = firstn k (s_parents s) /\ s_type s' = s_type s /\ s_value s' = s_value s /\
              s_traceback s' = s_traceback s.
 Proof.
-  intros G.
+  intros G HP. destruct (nameable_inv e (get_state_ok_nameable _ _ _ G)) as (ty & pa' & HT & HP').
+  rewrite HP in HP'. inversion HP'; subst pa'. clear HP'.
   destruct (trunc_field_spec (rendered e) trunc_limit_value ltac:(vm_compute; reflexivity)) as (bv & E1 & _).
-  destruct (trunc_field_spec (e_type e) trunc_limit_type ltac:(vm_compute; reflexivity)) as (bt & E2 & _).
+  destruct (trunc_field_spec ty trunc_limit_type ltac:(vm_compute; reflexivity)) as (bt & E2 & _).
   destruct (trunc_field_spec (elide (if unsafe then e_stack e else default_traceback)) trunc_limit_traceback ltac:(vm_compute; reflexivity))
     as (btb & E3 & _). unfold elide in E3.
-  destruct (map_res_spec (e_parents e) trunc_limit_parents ltac:(vm_compute; reflexivity)) as (ps & E4 & _).
+  destruct (map_res_spec pa trunc_limit_parents ltac:(vm_compute; reflexivity)) as (ps & E4 & _).
   assert (G' : get_state unsafe e = Ok {| s_type := bt; s_value := bv; s_traceback := btb; s_parents := ps |})
-    by (run_get_state E1 E2 E3 E4; reflexivity).
+    by (run_get_state HT HP E1 E2 E3 E4; reflexivity).
   rewrite G in G'. inversion G'; subst s. clear G G'.
   pose proof (map_res_firstn _ _ _ k E4) as E4'.
   exists {| s_type := bt; s_value := bv; s_traceback := btb; s_parents := firstn k ps |}.
   split; [|cbn; auto].
   unfold get_state, get_state_src; cbv zeta; rewrite ?render_safe_total; cbn [sbind e_type e_str e_fallback e_stack e_parents].
   change (rendered {| e_type := e_type e; e_str := e_str e; e_fallback := e_fallback e; e_stack := e_stack e;
-                      e_parents := firstn k (e_parents e) |}) with (rendered e).
-  repeat (first [step_tf E1 | step_tf E2 | step_tf E3 | rewrite E4']; cbn [sbind]). reflexivity.
+                      e_parents := Ok (firstn k pa) |}) with (rendered e).
+  rewrite ?HT; cbn [sbind].
+  repeat (first [step_tf E1 | step_tf E2 | step_tf E3 | rewrite E4' | rewrite HT]; cbn [sbind]). reflexivity.
 Qed.
 
 (* "or is uniformly wrapped when the Tub is configured to hide remote exception types": with types hidden, what the caller
@@ -530,26 +592,26 @@ Proof. split; reflexivity. Qed.
 (* the whole path, composed: for EVERY exception and both settings of both options the report reaches the caller's
    Deferred (never an exception in the callee's slicer, never a local Violation from the caller's FailureConstraint),
    wrapped iff types are hidden; when exposed, the type name and every ancestor that fit are identified *)
-Theorem report_end_to_end unsafe expose e :
+Theorem report_end_to_end unsafe expose e ty pa : e_type e = Ok ty -> e_parents e = Ok pa ->
   exists s, get_state unsafe e = Ok s /\
     report unsafe expose e = Ok (if expose then Copied s else Wrapped s) /\
-    (expose = true -> wf_text (e_type e) -> blen (utf8 (e_type e)) <= trunc_limit_type ->
-       delivered_type (deliver expose s) = utf8 (e_type e)) /\
-    (expose = true -> forall n, In n (e_parents e) -> wf_text n -> blen (utf8 n) <= trunc_limit_parents ->
+    (expose = true -> wf_text ty -> blen (utf8 ty) <= trunc_limit_type ->
+       delivered_type (deliver expose s) = utf8 ty) /\
+    (expose = true -> forall n, In n pa -> wf_text n -> blen (utf8 n) <= trunc_limit_parents ->
        delivered_check (deliver expose s) (utf8 n) = true) /\
     (expose = false -> delivered_type (deliver expose s) = remote_exception_name /\
        forall n, delivered_check (deliver expose s) n = existsb (list_eqb n) remote_exception_parents).
 Proof.
-  destruct (failure_fits unsafe e) as (s & G & OK & _). exists s. split; [exact G|].
+  intros HT HP. destruct (failure_fits unsafe e ty pa HT HP) as (s & G & OK & _). exists s. split; [exact G|].
   split; [unfold report; rewrite G, OK; destruct expose; reflexivity|].
-  split; [intros -> W L; exact (type_exact _ _ _ G W L)|].
-  split; [intros -> n I W L; destruct (ancestry_preserved _ _ _ G) as (_ & A & _); exact (A n I W L)|].
+  split; [intros -> W L; exact (type_exact _ _ _ _ G HT W L)|].
+  split; [intros -> n I W L; destruct (ancestry_preserved _ _ _ _ G HP) as (_ & A & _); exact (A n I W L)|].
   intros ->. split; reflexivity.
 Qed.
 
 Example ex_ancestry :
-  let e := {| e_type := [77; 46; 69]; e_str := Ok [109]; e_fallback := []; e_stack := [];
-              e_parents := [[77; 46; 69]; repeat 233 150; [111]] |} in
+  let e := {| e_type := Ok [77; 46; 69]; e_str := Ok [109]; e_fallback := []; e_stack := [];
+              e_parents := Ok [[77; 46; 69]; repeat 233 150; [111]] |} in
   exists s, get_state true e = Ok s /\ List.length (s_parents s) = 3%nat /\
     delivered_check (deliver true s) (utf8 [77; 46; 69]) = true /\ delivered_check (deliver true s) (utf8 [111]) = true /\
     delivered_check (deliver true s) (utf8 (repeat 233 150)) = false /\
@@ -561,7 +623,7 @@ Proof. eexists. split; [vm_compute; reflexivity|]. vm_compute. auto 10. Qed.
 Theorem escape_spec t : wf_text (escape t) /\ (wf_text t -> escape t = t).
 Proof. split; [apply escape_wf|apply escape_id]. Qed.
 
-Theorem type_and_message_exact unsafe e s : get_state unsafe e = Ok s ->
-  (wf_text (e_type e) -> blen (utf8 (e_type e)) <= trunc_limit_type -> s_type s = utf8 (e_type e)) /\
+Theorem type_and_message_exact unsafe e s ty : get_state unsafe e = Ok s -> e_type e = Ok ty ->
+  (wf_text ty -> blen (utf8 ty) <= trunc_limit_type -> s_type s = utf8 ty) /\
   (wf_text (rendered e) -> blen (utf8 (rendered e)) <= trunc_limit_value -> s_value s = utf8 (rendered e)).
-Proof. intros G. split; [apply (type_exact _ _ _ G)|apply (value_exact _ _ _ G)]. Qed.
+Proof. intros G HT. split; [apply (type_exact _ _ _ _ G HT)|apply (value_exact _ _ _ G)]. Qed.
